@@ -610,6 +610,30 @@ func hsForge(ver string, e *Ev, cls, name string) *Ev {
 type hsFix struct {
 	ver, typ, forge string
 	happy           bool
+	// variant: a member-content name under another spelling ("alone": instead of the exact member, "after" / "before":
+	// next to the exact member, which carries another value).  Member names are exact: Membership(), the decode of
+	// MemberContent and the auth rules ignore the other spellings.
+	variant string
+}
+
+// hsMemberVariants: the spellings used by the fixed prologues (before / after the exact name in the marshalled map)
+var hsVariantClasses = []string{"alone", "after", "before"}
+
+// hsApplyVariant rewrites the content of a join / invite (membership `good`) for a variant class: the reading by exact
+// names is "no membership" (alone), `other` (after: {"membership":other,"memberſhip":good}) or still `good`
+// (before: {"Membership":other,"membership":good}).
+func hsApplyVariant(content map[string]interface{}, class, good, other string) {
+	switch class {
+	case "alone":
+		delete(content, "membership")
+		content["Membership"] = good
+	case "after":
+		content["membership"] = other
+		content["memberſhip"] = good
+	case "before":
+		content["Membership"] = other
+		content["membership"] = good
+	}
 }
 
 func genSendJoin(o *Out, r *Rng, i int) { genSendJoinFix(o, r, i, hsFix{}) }
@@ -623,6 +647,9 @@ func genSendJoinFixed(o *Out, r *Rng) {
 		}
 		for _, f := range hsForgeClasses {
 			genSendJoinFix(o, r, 1000, hsFix{ver: ver, forge: f, happy: true})
+		}
+		for _, v := range hsVariantClasses {
+			genSendJoinFix(o, r, 1000, hsFix{ver: ver, variant: v, happy: true})
 		}
 	}
 }
@@ -695,6 +722,25 @@ func genSendJoinFix(o *Out, r *Rng, i int, fix hsFix) {
 		content["displayname"] = 5
 	case "direct":
 		content["is_direct"] = "yes"
+	}
+	// member names under another spelling (ignored by every reader): the membership, and an authorising user of a
+	// foreign server / an ill-typed display name that a folded reader would trip over
+	variant := fix.variant
+	if variant == "" && rare(6) {
+		variant = Pick(r, hsVariantClasses)
+	}
+	if variant != "" {
+		hsApplyVariant(content, variant, "join", "leave")
+		o.Count("sendjoin.member-name-variant." + variant)
+	}
+	if rare(5) {
+		content[Pick(r, []string{"Join_authorised_via_users_server", "join_authoriſed_via_users_server", "JOIN_AUTHORISED_VIA_USERS_SERVER"})] =
+			Pick(r, []interface{}{"@alice:hs2", "alice", 7})
+		o.Count("sendjoin.member-name-variant.via")
+	}
+	if rare(3) {
+		content[Pick(r, []string{"Displayname", "Is_direct", "Third_party_invite", "Mxid_mapping", "reaſon"})] = 5
+		o.Count("sendjoin.member-name-variant.ill-typed")
 	}
 	var contentV interface{} = content
 	if rare(2) {
@@ -898,6 +944,9 @@ func genInviteFixed(o *Out, r *Rng) {
 		for _, typ := range hsWrongTypes {
 			genInviteFix(o, r, 1000, hsFix{ver: ver, typ: "t:" + typ, happy: true})
 		}
+		for _, v := range hsVariantClasses {
+			genInviteFix(o, r, 1000, hsFix{ver: ver, variant: v, happy: true})
+		}
 	}
 }
 
@@ -933,7 +982,16 @@ func genInviteFix(o *Out, r *Rng, i int, fix hsFix) {
 		sk = sp("")
 	}
 	g.RoomID = pickDev(r, p, "!room:hs2", "!elsewhere:hs2")
-	var content interface{} = map[string]interface{}{"membership": membership}
+	mc := map[string]interface{}{"membership": membership}
+	variant := fix.variant
+	if variant == "" && !fix.happy && r.Chance(6) {
+		variant = Pick(r, hsVariantClasses)
+	}
+	if variant != "" {
+		hsApplyVariant(mc, variant, membership, Pick(r, []string{"leave", "join"}))
+		o.Count("invite.member-name-variant." + variant)
+	}
+	var content interface{} = mc
 	if typ != spec.MRoomMember {
 		content = map[string]interface{}{"users": map[string]interface{}{"@bob:hs2": 100}}
 	}
@@ -1320,6 +1378,15 @@ func execInviteV3(args []string) string {
 		content["membership"] = 5
 	case "~null":
 		content["membership"] = nil
+	case "~variant": // the name under another spelling only: no membership for a reader of exact names
+		delete(content, "membership")
+		content["Membership"] = "invite"
+	case "~variantafter": // {"membership":"leave","memberſhip":"invite"}: a leave
+		content["membership"] = "leave"
+		content["memberſhip"] = "invite"
+	case "~variantbefore": // {"Membership":"leave","membership":"invite"}: an invite
+		content["Membership"] = "leave"
+		content["membership"] = "invite"
 	}
 	if args[6] == "1" {
 		content["pad"] = strings.Repeat("x", 70000)
@@ -1373,11 +1440,14 @@ func execInviteV3(args []string) string {
 		sig = "1"
 	}
 	shape := "0"
-	var c struct {
-		Membership string `json:"membership"`
+	// the member named exactly "membership" (a map decode does not fold names)
+	var c map[string]interface{}
+	want := args[4]
+	if want == "~variantbefore" {
+		want = "invite"
 	}
 	if out.Type() == ptype && out.StateKeyEquals(string(invitedSender)) && out.RoomID().String() == roomID.String() &&
-		json.Unmarshal(out.Content(), &c) == nil && (c.Membership == args[4] || strings.HasPrefix(args[4], "~")) && string(out.SenderID()) == proto.SenderID {
+		json.Unmarshal(out.Content(), &c) == nil && (c["membership"] == want || strings.HasPrefix(want, "~")) && string(out.SenderID()) == proto.SenderID {
 		shape = "1"
 	}
 	var u struct {
@@ -1406,7 +1476,7 @@ func genInviteV3Fixed(o *Out, r *Rng) {
 	for _, typ := range append([]string{"m.room.power_levels", "m.room.message"}, hsWrongTypes...) {
 		genInviteV3Fix(o, r, 1000, hsFix{typ: "t:" + typ, happy: true}, "")
 	}
-	for _, m := range []string{"join", "leave", "ban", "knock", "Invite", "~missing", "~null", "~num", "~notobject"} {
+	for _, m := range []string{"join", "leave", "ban", "knock", "Invite", "~missing", "~null", "~num", "~notobject", "~variant", "~variantafter", "~variantbefore"} {
 		genInviteV3Fix(o, r, 1000, hsFix{happy: true}, m)
 	}
 }
@@ -1429,7 +1499,7 @@ func genInviteV3Fix(o *Out, r *Rng, i int, fix hsFix, fixMembership string) {
 			typ = "-"
 		}
 	}
-	membership := pickDev(r, p, "invite", "join", "leave", "ban", "knock", "Invite", "~missing", "~null", "~num", "~notobject")
+	membership := pickDev(r, p, "invite", "join", "leave", "ban", "knock", "Invite", "~missing", "~null", "~num", "~notobject", "~variant", "~variantafter", "~variantbefore")
 	if fixMembership != "" {
 		membership = fixMembership
 	}
@@ -1441,7 +1511,7 @@ func genInviteV3Fix(o *Out, r *Rng, i int, fix hsFix, fixMembership string) {
 	cur := pickDev(r, pq(70), "m:leave", "m:join", "m:invite", "m:", "err")
 	res := o.Do("invitev3", ver, hx([]byte(room)), hx([]byte(protoRoom)), typ, membership, sender, big, known, stripped, stateq, cur)
 	o.Count("invitev3." + res)
-	if typ != spec.MRoomMember || membership != "invite" {
+	if typ != spec.MRoomMember || (membership != "invite" && membership != "~variantbefore") {
 		o.Count("invitev3.not-an-invite." + res)
 	}
 	if i == 1000 && (fix.typ == "t:m.room.power_levels" || fixMembership == "join") {
